@@ -471,7 +471,12 @@ def _judge_lowering(repo: Repo, T, view: FuncInfo, p: Production, layers_param: 
                 return None
 
             sites: list = []
-            _maker_sites(repo, T, pv, list(ast.walk(elt)) if e is elt else list(ast.walk(elt)) + list(ast.walk(e)), _filter_classes(repo), {}, [], 0, sites, fsub)
+            from core.guards import TRUE
+
+            comp = Components(pv, [], {})
+            comp.flagsub = fsub  # type: ignore[method-assign]
+            comp.tag = lambda x: ("FLAG" if fsub(x) is not None else None)  # type: ignore[method-assign]
+            _maker_sites(repo, T, pv, list(ast.walk(elt)) if e is elt else list(ast.walk(elt)) + list(ast.walk(e)), _filter_classes(repo), comp, TRUE, 0, sites)
             kinds = {k for k, _f, _n, _c in sites}
             if not kinds or "unknown" in kinds:
                 return "undecided", f"`{norm(elt, 60)}` is neither an (identifier, is-regex) pair nor a recognisable module filter of the layer ({', '.join(mv)})"
@@ -525,44 +530,110 @@ def _filter_classes(repo: Repo) -> dict[str, str]:
     return out
 
 
-def _flag_names(view: FuncInfo, param: str) -> tuple[set[str], set[str]]:
-    """Names bound to the (name, flag) components of the elements of `param`."""
-    names_, flags = set(), set()
-    for n in all_nodes(view):
-        its = []
-        if isinstance(n, (ast.For, ast.AsyncFor)):
-            its = [(n.target, n.iter)]
-        elif isinstance(n, ast.comprehension):
-            its = [(n.target, n.iter)]
-        for t, it in its:
-            src = _strip_transparent(single_value(view, it))
-            if isinstance(src, ast.Call) and isinstance(src.func, ast.Name) and src.func.id == "enumerate" and src.args and isinstance(t, ast.Tuple) and len(t.elts) == 2:
-                src, t = _strip_transparent(src.args[0]), t.elts[1]
-            if isinstance(src, ast.Name) and src.id == param:
-                if isinstance(t, ast.Tuple) and len(t.elts) == 2 and all(isinstance(x, ast.Name) for x in t.elts):
-                    names_.add(t.elts[0].id)
-                    flags.add(t.elts[1].id)
-                elif isinstance(t, ast.Name):
-                    names_.add(f"{t.id}[0]")
-                    flags.add(f"{t.id}[1]")
-    # one level of aliases: flag = spec[1]
-    for n in all_nodes(view):
-        if isinstance(n, ast.Assign) and len(n.targets) == 1:
-            t, v = n.targets[0], n.value
-            if isinstance(t, ast.Name) and norm(v) in flags:
-                flags.add(t.id)
-            if isinstance(t, ast.Name) and norm(v) in names_:
-                names_.add(t.id)
-            if isinstance(t, ast.Tuple) and len(t.elts) == 2 and isinstance(v, ast.Name) and f"{v.id}[1]" in flags and all(isinstance(x, ast.Name) for x in t.elts):
-                names_.add(t.elts[0].id)
-                flags.add(t.elts[1].id)
-    return names_, flags
+# Components of the module specifications inside the receiving Rule method (and the helpers it uses):
+#   SPECS  the sequence of (identifier, is-regex) pairs     SPEC  one pair      NAME / FLAG  its two components
+#   NAMES / FLAGS  the two sequences obtained by `zip(*specs)`               ZIPPED  the result of that zip
+class Components:
+    def __init__(self, ctx: FuncInfo, nodes: list[ast.AST], seeds: dict[str, str]) -> None:
+        self.ctx = ctx
+        self.env: dict[str, str] = dict(seeds)
+        for _ in range(4):
+            before = dict(self.env)
+            for n in nodes:
+                if isinstance(n, (ast.For, ast.AsyncFor, ast.comprehension)):
+                    self.bind(n.target, self.elem(self.tag(n.iter)))
+                elif isinstance(n, ast.Assign):
+                    t = self.tag(n.value)
+                    for tg in n.targets:
+                        self.bind(tg, t)
+                elif isinstance(n, ast.AnnAssign) and n.value is not None:
+                    self.bind(n.target, self.tag(n.value))
+                elif isinstance(n, ast.NamedExpr):
+                    self.bind(n.target, self.tag(n.value))
+                elif isinstance(n, (ast.Lambda, ast.FunctionDef)) and n is not getattr(ctx, "node", None):
+                    args = n.args
+                    pos = [*args.posonlyargs, *args.args]
+                    for p_, d in zip(pos[len(pos) - len(args.defaults):], args.defaults):
+                        t = self.tag(d)
+                        if t:
+                            self.env.setdefault(p_.arg, t)
+                    for p_, d in zip(args.kwonlyargs, args.kw_defaults):
+                        if d is not None and self.tag(d):
+                            self.env.setdefault(p_.arg, self.tag(d))
+            if self.env == before:
+                break
+
+    @staticmethod
+    def elem(t: str | None) -> str | None:
+        return {"SPECS": "SPEC", "NAMES": "NAME", "FLAGS": "FLAG", "ENUM-SPECS": "ENUM-SPEC"}.get(t or "")
+
+    def tag(self, e: ast.expr | None) -> str | None:
+        if e is None:
+            return None
+        if isinstance(e, ast.Name):
+            return self.env.get(e.id)
+        if isinstance(e, ast.Subscript) and isinstance(e.slice, ast.Constant) and self.tag(e.value) == "SPEC":
+            return {0: "NAME", 1: "FLAG", -1: "FLAG", -2: "NAME"}.get(e.slice.value)
+        if isinstance(e, ast.Subscript) and isinstance(e.slice, ast.Slice):
+            return self.tag(e.value)
+        if isinstance(e, ast.Subscript) and isinstance(e.slice, ast.Constant) and self.tag(e.value) == "ZIPPED":
+            return {0: "NAMES", 1: "FLAGS"}.get(e.slice.value)
+        if isinstance(e, ast.Subscript):
+            return self.elem(self.tag(e.value))
+        if isinstance(e, ast.IfExp):
+            return self.tag(e.body) or self.tag(e.orelse)
+        if isinstance(e, ast.Call) and isinstance(e.func, ast.Name):
+            f = e.func.id
+            if f in ("list", "tuple", "sorted", "reversed", "iter") and e.args:
+                return self.tag(e.args[0])
+            if f == "enumerate" and e.args and self.tag(e.args[0]) == "SPECS":
+                return "ENUM-SPECS"
+            if f == "zip" and len(e.args) == 1 and isinstance(e.args[0], ast.Starred) and self.tag(e.args[0].value) == "SPECS":
+                return "ZIPPED"
+            if f == "zip" and len(e.args) == 2 and self.tag(e.args[0]) == "NAMES" and self.tag(e.args[1]) == "FLAGS":
+                return "SPECS"
+            if f == "bool" and e.args and self.tag(e.args[0]) == "FLAG":
+                return "FLAG"
+        return None
+
+    def bind(self, target: ast.expr, t: str | None) -> None:
+        if isinstance(target, ast.Name):
+            if t:
+                self.env.setdefault(target.id, t)
+        elif isinstance(target, (ast.Tuple, ast.List)) and len(target.elts) == 2:
+            a, b = target.elts
+            if t == "SPEC":
+                self.bind(a, "NAME")
+                self.bind(b, "FLAG")
+            elif t == "ZIPPED":
+                self.bind(a, "NAMES")
+                self.bind(b, "FLAGS")
+            elif t == "ENUM-SPEC":
+                self.bind(b, "SPEC")
+
+    def flagsub(self, e: ast.expr):
+        if self.tag(e) == "FLAG":
+            return atom("FLAG")
+        if isinstance(e, ast.Compare) and len(e.ops) == 1 and self.tag(e.left) == "FLAG" and isinstance(e.comparators[0], ast.Constant) and isinstance(e.comparators[0].value, bool):
+            pos = isinstance(e.ops[0], (ast.Is, ast.Eq)) == bool(e.comparators[0].value)
+            return atom("FLAG") if pos else f_not(atom("FLAG"))
+        return None
 
 
-def _maker_sites(repo: Repo, T, ctx: FuncInfo, node_iter, classes: dict[str, str], env: dict[str, ast.expr], pre: list, depth: int, out: list, flagsub) -> None:
-    """Collects (kind, formula, node, ctx) for every place a module filter is created in `ctx` (and in helpers it calls)."""
+def _nodes_of(ctx: FuncInfo) -> list[ast.AST]:
+    if hasattr(ctx, "base"):
+        return list(all_nodes(ctx))
+    if isinstance(ctx.node, ast.Lambda):
+        return list(ast.walk(ctx.node.body))
+    return [x for st in ctx.node.body for x in ast.walk(st)]
+
+
+def _maker_sites(repo: Repo, T, ctx: FuncInfo, node_iter, classes: dict[str, str], comp: Components, pre, depth: int, out: list) -> None:
+    """Collects (kind, formula, node, ctx) for every place a module filter is created in `ctx` (and in helpers it calls).
+    `pre` is the formula under which `ctx` itself runs (conditions of the call sites passed through so far)."""
     if depth > 4:
         return
+    flagsub = comp.flagsub
     for n in node_iter:
         if isinstance(n, ast.Call):
             src = getattr(n, "_src", None)
@@ -574,36 +645,37 @@ def _maker_sites(repo: Repo, T, ctx: FuncInfo, node_iter, classes: dict[str, str
                 ci = None
             if ci is not None and ci.fq in classes:
                 if _direct_ref(repo, T, c_ctx, orig.func):
-                    out.append((classes[ci.fq], _site_formula(ctx, n, env, pre, flagsub), n, ctx))
+                    out.append((classes[ci.fq], _site_formula(ctx, n, pre, flagsub), n, ctx))
                 # else: a class held in a variable / table is called - the places where it was chosen are the sites
                 continue
-            # helper that creates the filter (not inlined because it sits in an expression): follow it with its arguments bound
-            bound_call = n
-            if isinstance(orig.func, (ast.Name, ast.Attribute)) and (repo.resolve_name(c_ctx.module, orig.func) or "") == "functools.partial" and n.args:
-                # partial(factory, flag) / partial(factory, is_regex=flag): the factory with these arguments bound
-                try:
-                    ft = T.expr(c_ctx, orig.args[0])
-                except Exception:  # noqa: BLE001
-                    ft = None
-                fs = [m[1] for m in members(ft) if m[0] == "fn"] if ft is not None else []
-                cs, how = (fs, "repo") if len(fs) == 1 else ([], "")
-                bound_call = ast.Call(func=n.args[0], args=list(n.args[1:]), keywords=list(n.keywords))
+            # helper that creates the filter (not inlined because it sits in an expression): follow it with the components of
+            # its arguments
+            callee, seeds = None, {}
+            fname = (repo.resolve_name(c_ctx.module, orig.func) or "") if isinstance(orig.func, (ast.Name, ast.Attribute)) else ""
+            if fname == "functools.partial" and n.args:
+                callee = _fn_of(T, c_ctx, orig.args[0])
+                if callee is not None:
+                    seeds = _seed(callee, list(n.args[1:]), n.keywords, comp)
+            elif isinstance(orig.func, ast.Name) and orig.func.id == "map" and len(n.args) == 2 and "map" not in T.locals(c_ctx):
+                callee = _fn_of(T, c_ctx, orig.args[0])
+                if callee is not None:
+                    ps = _positional(callee)
+                    el = comp.elem(comp.tag(n.args[1]))
+                    seeds = {ps[0]: el} if ps and el else {}
             else:
                 try:
                     cs, how = T.callees(c_ctx, orig, byname_fallback=False)
                 except Exception:  # noqa: BLE001
                     cs, how = [], ""
-            cs = [c for c in cs if not c.is_abstract]
-            if len(cs) == 1 and how == "repo" and not isinstance(cs[0].node, ast.Lambda):
-                callee = cs[0]
-                if any(isinstance(x, ast.Call) and _ctor_kind(repo, T, callee, x, classes) for x in ast.walk(callee.node)):
-                    binding = _bind_args(callee, bound_call)
-                    if binding is not None:
-                        sub = dict(lambda_default_subst(n))
-                        sub.update(env)
-                        binding = {k: substitute(v, sub) for k, v in binding.items()}
-                        here = _site_conds(ctx, n, env)
-                        _maker_sites(repo, T, callee, [x for s in callee.node.body for x in ast.walk(s)], classes, binding, pre + here, depth + 1, out, flagsub)
+                cs = [c for c in cs if not c.is_abstract]
+                if len(cs) == 1 and how == "repo" and not isinstance(cs[0].node, ast.Lambda):
+                    callee = cs[0]
+                    seeds = _seed(callee, list(n.args), n.keywords, comp)
+            if callee is not None and not isinstance(callee.node, ast.Lambda) and any(isinstance(x, ast.Call) and _ctor_kind(repo, T, callee, x, classes) for x in ast.walk(callee.node)):
+                nodes = _nodes_of(callee)
+                sub = Components(callee, nodes, seeds)
+                here = f_and([pre, conds_formula(_site_conds(ctx, n), flagsub)])
+                _maker_sites(repo, T, callee, nodes, classes, sub, here, depth + 1, out)
         elif isinstance(n, (ast.Attribute, ast.Name)) and isinstance(n.ctx, ast.Load) and not (isinstance(parent(n), ast.Call) and parent(n).func is n):
             # a *direct* reference to a filter class / factory function / bound method that is called later (a local variable
             # holding such a reference is not a site of its own: the places where it was bound are)
@@ -611,6 +683,9 @@ def _maker_sites(repo: Repo, T, ctx: FuncInfo, node_iter, classes: dict[str, str
             c_ctx, orig = src if src is not None else (ctx, n)
             if not _direct_ref(repo, T, c_ctx, orig):
                 continue
+            p = parent(n)
+            if isinstance(p, ast.Call) and p.args and p.args[0] is n and isinstance(p.func, ast.Name) and p.func.id in ("map", "partial"):
+                continue  # handled with the call
             try:
                 t = T.expr(c_ctx, orig)
             except Exception:  # noqa: BLE001
@@ -630,8 +705,36 @@ def _maker_sites(repo: Repo, T, ctx: FuncInfo, node_iter, classes: dict[str, str
                 if sel == "unknown":
                     out.append(("unknown", None, n, ctx))
                 else:
-                    f = _site_formula(ctx, n, env, pre, flagsub)
+                    f = _site_formula(ctx, n, pre, flagsub)
                     out.append((kind, f if sel is None else f_and([f, sel]), n, ctx))
+
+
+def _fn_of(T, ctx: FuncInfo, e: ast.expr) -> FuncInfo | None:
+    try:
+        t = T.expr(ctx, e)
+    except Exception:  # noqa: BLE001
+        return None
+    fs = [m[1] for m in members(t) if m[0] == "fn"]
+    return fs[0] if len(fs) == 1 else None
+
+
+def _positional(callee: FuncInfo) -> list[str]:
+    a = callee.node.args
+    pos = [p.arg for p in [*a.posonlyargs, *a.args]]
+    if callee.cls is not None and callee.outer is None and not callee.is_staticmethod and pos:
+        pos = pos[1:]
+    return pos
+
+
+def _seed(callee: FuncInfo, args: list, keywords: list, comp: Components) -> dict[str, str]:
+    out: dict[str, str] = {}
+    for p_, a in zip(_positional(callee), args):
+        if not isinstance(a, ast.Starred) and comp.tag(a):
+            out[p_] = comp.tag(a)
+    for k in keywords:
+        if k.arg and comp.tag(k.value):
+            out[k.arg] = comp.tag(k.value)
+    return out
 
 
 def _direct_ref(repo: Repo, T, c_ctx: FuncInfo, e: ast.expr) -> bool:
@@ -710,17 +813,12 @@ def _bind_args(callee: FuncInfo, call: ast.Call) -> dict[str, ast.expr] | None:
     return out
 
 
-def _site_conds(ctx: FuncInfo, node: ast.AST, env: dict[str, ast.expr]) -> list:
-    sub = dict(lambda_default_subst(node))
-    sub.update(env)
-    out = []
-    for c, pol in conds(ctx, node):
-        out.append((substitute(c, sub), pol))
-    return out
+def _site_conds(ctx: FuncInfo, node: ast.AST) -> list:
+    return list(conds(ctx, node))
 
 
-def _site_formula(ctx: FuncInfo, node: ast.AST, env: dict[str, ast.expr], pre: list, flagsub):
-    return conds_formula(pre + _site_conds(ctx, node, env), flagsub)
+def _site_formula(ctx: FuncInfo, node: ast.AST, pre, flagsub):
+    return f_and([pre, conds_formula(_site_conds(ctx, node), flagsub)])
 
 
 def check_filter_selection(repo: Repo, res: Result, receiver: FuncInfo | None) -> None:
@@ -738,22 +836,16 @@ def check_filter_selection(repo: Repo, res: Result, receiver: FuncInfo | None) -
     if not params:
         res.undecide("C05.R1", construct, "the receiving Rule method has no parameter for the module specifications", where(receiver, receiver.node))
         return
-    names_, flags = _flag_names(view, params[0])
-    if not flags:
+    nodes = list(all_nodes(view))
+    comp = Components(view, nodes, {params[0]: "SPECS"})
+    sites: list = []
+    from core.guards import TRUE
+
+    _maker_sites(repo, T, view, nodes, classes, comp, TRUE, 0, sites)
+    kinds = {k for k, _f, _n, _c in sites}
+    if not any("FLAG" in atoms_of(f) for _k, f, _n, _c in sites if f is not None) and ("regex" in kinds and "name" in kinds) and "FLAG" not in comp.env.values():
         res.undecide("C05.R1", construct, f"cannot find where the (identifier, is-regex) pairs of `{params[0]}` are taken apart", where(receiver, receiver.node))
         return
-
-    def flagsub(e: ast.expr):
-        if norm(e) in flags:
-            return atom("FLAG")
-        if isinstance(e, ast.Compare) and len(e.ops) == 1 and norm(e.left) in flags and isinstance(e.comparators[0], ast.Constant) and isinstance(e.comparators[0].value, bool):
-            pos = isinstance(e.ops[0], (ast.Is, ast.Eq)) == bool(e.comparators[0].value)
-            return atom("FLAG") if pos else f_not(atom("FLAG"))
-        return None
-
-    sites: list = []
-    _maker_sites(repo, T, view, list(all_nodes(view)), classes, {}, [], 0, sites, flagsub)
-    kinds = {k for k, _f, _n, _c in sites}
     unknown = [n for k, _f, n, _c in sites if k == "unknown"]
     if unknown:
         res.undecide("C05.R1", construct, f"a filter class is kept in a table (`{norm(parent(unknown[0]), 60)}`) whose selection by the is-regex flag was not found", where_of(view, unknown[0]))
